@@ -61,6 +61,7 @@ class ItemSpec:
         self.subs = []
         self.abstract_loops = {}
         self.abstract_args = []
+        self.abstract_arms = []
         self.from_other_unit = False
         self.closures = {}
         self.strip_generics = False
@@ -247,6 +248,11 @@ def parse_template(path, specs_dir, seen=None, contracts_only=False):
                 cl = [m2.group(1), m2.group(2)]
                 c['ensures'].append(cl)
                 last_clause = cl
+        elif d.startswith('abstract_arms '):
+            mo = re.match(r'^abstract_arms\s+(\d+)\s*::\s*(.*?)\s*==>>\s*(.*)$', d)
+            if not mo:
+                raise UnitError('%s:%d: bad abstract_arms' % (path, i + 1))
+            cur.abstract_arms.append((int(mo.group(1)), mo.group(2), mo.group(3)))
         elif d.startswith('abstract_arg '):
             mo = re.match(r'^abstract_arg\s+([\w:]+)\s+(\d+)\s*::\s*(.*)$', d)
             if not mo:
@@ -465,6 +471,78 @@ def _inject_body(body, spec):
     return body, len(loops)
 
 
+def split_match_arms(text, m, brace_open):
+    """Arms of the match whose body brace opens at brace_open: list of (pat_start, arrow, body_start, body_end)."""
+    close = match_close(m, brace_open)
+    arms = []
+    k = brace_open + 1
+    while k < close:
+        while k < close and m[k] in ' \t\r\n,':
+            k += 1
+        if k >= close:
+            break
+        ps = k
+        depth = 0
+        while k < close:
+            ch = m[k]
+            if ch in '([{':
+                depth += 1
+            elif ch in ')]}':
+                depth -= 1
+            elif ch == '=' and m[k + 1] == '>' and depth == 0:
+                break
+            k += 1
+        arrow = k
+        k += 2
+        while k < close and m[k] in ' \t\r\n':
+            k += 1
+        bs = k
+        if m[k] == '{':
+            be = match_close(m, k) + 1
+            k = be
+        else:
+            depth = 0
+            while k < close:
+                ch = m[k]
+                if ch in '([{':
+                    depth += 1
+                elif ch in ')]}':
+                    depth -= 1
+                elif ch == ',' and depth == 0:
+                    break
+                k += 1
+            be = k
+        arms.append((ps, arrow, bs, be))
+    return arms
+
+
+def _abstract_arms(text, n, rx, repl, sid):
+    """Rule A3: in the n-th `match` of the item, the body of every arm whose pattern or body matches `rx`
+    is replaced by `repl` (an opaque call): what such an arm returns is not modelled."""
+    m, _ = mask(text)
+    ms = [mo for mo in re.finditer(r'\bmatch\b', m)]
+    if n >= len(ms):
+        raise UnitError('lost anchor: %s match %d' % (sid, n))
+    k = ms[n].end()
+    depth = 0
+    while k < len(m) and not (m[k] == '{' and depth == 0):
+        if m[k] in '([':
+            depth += 1
+        elif m[k] in ')]':
+            depth -= 1
+        k += 1
+    arms = split_match_arms(text, m, k)
+    cnt = 0
+    for ps, arrow, bs, be in reversed(arms):
+        arm_text = text[ps:be]
+        if re.search(rx, arm_text):
+            text = text[:bs] + '/*@A3 arm abstracted@*/ ' + repl + (',' if text[bs] == '{' else '') + text[be:]
+            cnt += 1
+    if cnt == 0:
+        raise UnitError('lost anchor: %s abstract_arms matched no arm' % sid)
+    return text, cnt
+
+
 def _abstract_arg(text, callee, idx, repl, sid):
     """Rule A2: the idx-th argument of the (single) call `callee(...)` is replaced by `repl`."""
     m, _ = mask(text)
@@ -516,12 +594,21 @@ def process_item(repo, spec, mutations=None, force_false=False):
         text = text.replace(mu['from'], mu['to'], 1)
         mutated = True
     text, log = rewrite.apply_all(text, spec.rewrites)
+    # R12c: an item without a visibility qualifier becomes `pub` (not inside trait impls, where it is illegal)
+    if not re.match(r'^impl\s+\S.*\sfor\s', spec.selector):
+        mvis = re.match(r'^(\s*(?:#\[[^\]]*\]\s*)*)(fn|struct|enum|const|static|type|unsafe fn)\b', text)
+        if mvis:
+            text = text[:mvis.end(1)] + 'pub ' + text[mvis.end(1):]
+            log['R12c'] = 1
     for a, b in spec.subs:
         text2, c = re.subn(a, b, text)
         if c == 0:
             raise UnitError('lost anchor: per-item rewrite %r did not match in %s' % (a, spec.id))
         text = text2
         log['per-item:' + a] = c
+    for n, rx, repl in spec.abstract_arms:
+        text, c = _abstract_arms(text, n, rx, repl, spec.id)
+        log['A3:match%d' % n] = c
     for callee, idx, repl in spec.abstract_args:
         text = _abstract_arg(text, callee, idx, repl, spec.id)
         log['A2:%s#%d' % (callee, idx)] = 1
